@@ -40,7 +40,7 @@ PROPS['C19'] = dict(
                '(16807*s) mod (2^31-1) computed in 64-bit arithmetic (exhaustive); quick: every 127th state plus both ends. Every seed the library '
                'itself forms (0 and 2i+123j, i<2^20, j<5) is checked for a non-degenerate state. A rapidcheck state-machine layer draws scalar type, '
                'seeds, and interleavings of single / vector draws over several generator objects and threads, and compares each object with its own '
-               'reference model (purity, range [-0.5,0.5], real-then-imaginary order for complex).',
+               'reference model (purity, range [-0.5,0.5], real-then-imaginary order for complex). A fourth mode records the start vector that init() without an argument hands to the operator (SymEigsSolver<double|float>, HermEigsSolver<complex<double>>, GenEigsSolver<double>) in the calling thread, in 1-4 consecutive or concurrent other threads (each initialising a solver of another size first) and in the calling thread again: all recordings must be bit-identical (which seed the library uses is not asserted).',
     level_note='Trusts 64-bit unsigned integer arithmetic of the compiler for the reference model. Seeds whose low 31 bits are all ones or all zeros '
                '(degenerate state) are outside the library\'s seed forms and are counted as rejected.',
     units=[dict(name='c19', src='c19_rand.cpp', libs=['-lrapidcheck', '-lpthread'])],
@@ -49,7 +49,7 @@ PROPS['C19'] = dict(
         thorough=[dict(unit='c19', cases=20000, workers='all', set=dict(stride=1, exh_part='{w}', exh_parts='{nw}'))],
     ),
     exhaustive_units=['c19'], exhaustive_tiers=['thorough'],
-    min=dict(quick=dict(cases=10000000, nontrivial=1000000), thorough=dict(cases=2000000000, nontrivial=100000000)),
+    min=dict(quick=dict(cases=10000000, nontrivial=1000000, classes={'default_start_vector': 800}), thorough=dict(cases=2000000000, nontrivial=100000000)),
     rule='enumeration layer: generator states s in [1, 2^31-2] (all of them in thorough, every 127th + 64 at each end in quick), each compared with '
          '16807*s mod (2^31-1) and with the float/double scalar map; non-trivial = the 16-bit split multiplication carries past 2^31-1 (either '
          'reduction branch taken), distinct by construction. rapidcheck layer: histories over 1-4 generator objects x 6 scalar types x seed forms x '
